@@ -174,8 +174,12 @@ func (p *redisProc) StopListen() error {
 }
 
 func (p *redisProc) Stop() error {
-	p.l.Stop()
+	// the upstream first: it answers whatever is still in flight. A session whose
+	// reader waits for room behind more than 32 unanswered requests is not reading
+	// from its connection and would never notice that the listener has closed it;
+	// the listener would wait for that session for ever.
 	p.u.Stop()
+	p.l.Stop()
 	p.wg.Wait()
 	return nil
 }
